@@ -52,7 +52,7 @@ fn main() {
             let h = vharness::sim::run_random(&w, &mut rng, &sched);
             for s in &h.steps {
                 println!("step {} {} {:?} code={} {} next={:?}", s.idx, w.peers[s.peer].name, s.decision, s.out.ret_code, vharness::proj::trunc(&s.out.error_message, 200), s.out.next_peers.iter().map(|p| w.peer_name(p)).collect::<Vec<_>>());
-                if let Ok(r) = &s.out.requests { for (id, r) in r { println!("    req {id}: {} {:?}", r.function, r.args); } }
+                if let Ok(r) = &s.out.requests { for (id, r) in r { println!("    req {id}: {} {:?}", r.function, r.args); if std::env::var("PLAY_TETS").is_ok() { for (a, t) in r.tetraplets.iter().enumerate() { println!("        arg{a}: {:?}", t.iter().map(|t| format!("({},{},{},{})", w.peer_name(&t.0), t.1, t.2, t.3)).collect::<Vec<_>>()); } } } }
                 if let Some(v) = &s.out_v { println!("    {:?}", vharness::proj::render_trace(v)); }
                 if std::env::var("PLAY_EVENTS").is_ok() { for e in &s.out.events { println!("      ev {:?}", e); } }
             }
